@@ -24,9 +24,13 @@ package sqltypes
 //@   ensures failed_scan_keeps_value: typeis(src, "string") && err != nil ==> deref(i) == old(deref(i))
 //@   modifies B:sqltypes.Interval:, B:time.Duration:
 
-// adjustDuration only ever writes the accumulator it is given (keeps the path count of Scan small; the value of a
-// PostgreSQL-format interval is not specified by these contracts).
+// adjustDuration adds value x scale to the accumulator exactly, or fails: machine arithmetic must not wrap
+// (checked unit: every multiplication and addition is an overflow obligation).
 //@ func adjustDuration(d, value, scale) (err)
 //@   property C17
-//@   requires d != nil
+//@   checked
+//@   requires d != nil && scale > 0
+//@   ensures empty_is_zero: len(value) == 0 ==> err == nil && deref(d) == old(deref(d))
+//@   ensures adds_exactly: len(value) != 0 && err == nil ==> deref(d) == old(deref(d)) + atoi(value) * scale
+//@   ensures failure_keeps_value: err != nil ==> deref(d) == old(deref(d))
 //@   modifies B:time.Duration:
